@@ -122,12 +122,19 @@ fn read_port_operation<'n>(
     in_or_out: InputOrOutput,
     operation_name: Option<&str>,
 ) -> WriterResult<SoapEnvelope> {
+    // the parts that are bound as headers can not be the body
+    let header_parts = n
+        .children()
+        .filter(|n| n.is_element() && n.tag_name().name() == "header")
+        .filter_map(|n| n.attribute("part"))
+        .collect::<Vec<&str>>();
+
     // lookup the body and header messages on the port type
     let body = n
         .children()
         .find(|n| n.is_element() && n.tag_name().name() == "body")
         .map_or(Err(WriterError::NodeNotFound("body".to_string())), |n| {
-            read_body_port_message(doc, n, port_operation, in_or_out, operation_name)
+            read_body_port_message(doc, n, port_operation, in_or_out, operation_name, &header_parts)
         })?;
 
     let headers = n
@@ -145,6 +152,7 @@ fn read_body_port_message<'n>(
     port_operation: &port::SoapOperation,
     in_or_out: InputOrOutput,
     operation_name: Option<&str>,
+    header_parts: &[&str],
 ) -> WriterResult<Rc<RustNode>> {
     // for now we only support literal encoding
     let encoding = node
@@ -167,21 +175,14 @@ fn read_body_port_message<'n>(
         return Err(WriterError::NodeNotFound("operation_name".to_string()));
     };
 
-    // if there are no parts defined we assume that the message is the same as the operation name
-    let (_name, (rust_node, _namespace)) = match in_or_out {
-        InputOrOutput::Input => port_operation
-            .input
-            .message
-            .parts
-            .iter()
-            .next()
-            .ok_or(WriterError::NodeNotFound(operation_name.to_string()))?,
-        InputOrOutput::Output => port_operation
-            .output
-            .as_ref()
-            .and_then(|o| o.message.parts.iter().next())
-            .ok_or(WriterError::NodeNotFound(operation_name.to_string()))?,
+    // if there are no parts defined the body is the part of the message that is not bound as a header
+    let message = match in_or_out {
+        InputOrOutput::Input => Some(&port_operation.input.message),
+        InputOrOutput::Output => port_operation.output.as_ref().map(|o| &o.message),
     };
+    let (_name, (rust_node, _namespace)) = message
+        .and_then(|m| m.parts.iter().find(|(name, _)| !header_parts.contains(&name.as_str())))
+        .ok_or(WriterError::NodeNotFound(operation_name.to_string()))?;
 
     Ok(rust_node.clone())
 }
